@@ -15,7 +15,7 @@ func init() {
 		Run: runC11,
 		Explanation: "Static decision of the writable-set discipline of topology.VolumeLayout: (1) every store that grows `writables` is reachable (in its own function or, propagated up to 3 call levels, in every caller on the heartbeat/registration/disconnect paths) only past enoughCopies() ∧ isAllWritable() ∧ !oversized; " +
 			"(2) writables and vid2location are read/written only with accessLock held in the right mode (caller-holds summaries checked at every caller); (3) registration entry points re-evaluate writability after changing the location list; " +
-			"(4) the truth table of enoughCopies over {locations <,=,> desired} x {replicationAsMin} equals the statement's. The vacuum-only entry SetVolumeAvailable is decided under C14. Heartbeat history semantics are not decided.",
+			"(4) the truth table of enoughCopies over {locations <,=,> desired} x {replicationAsMin} equals the statement's. The vacuum-only entry SetVolumeAvailable is decided under C14. Heartbeat history semantics are not decided. Also decided (FOUND-index): a search that records the matching position in a variable initialised to -1 tests it so that every position >= 0, the first included, counts as found.",
 		Assumptions: []string{"closures that are not started with go/defer run with the lock state of their creation point", "lock identity is per type (VolumeLayout.accessLock), not per object"},
 		Trusted:     baseTrusted,
 	})
